@@ -1,6 +1,7 @@
 //! Stand-in for `docker` and `pack` (one binary, two names on PATH). Logs its argv, keeps a
 //! tiny resource state (containers / images / volumes as files), and fails when the fault plan
-//! says so. Modern CLI semantics: `rm/rmi/volume remove --force` of a missing object succeed.
+//! says so. Default CLI semantics: `rm/rmi/volume remove --force` of a missing object succeed;
+//! the scenario's `rmi_mode` selects older/refusing behaviour for `rmi`.
 
 use serde_json::json;
 use std::io::Write;
@@ -166,8 +167,19 @@ fn main() {
             }
         }
         ("docker", "rmi") => {
+            let mode = read_num(&dir.join("rmi_mode"));
             for n in positional(1) {
-                let _ = std::fs::remove_file(state.join("images").join(n));
+                let p = state.join("images").join(n);
+                if mode == 2 {
+                    exit = 1;
+                    eprintln!("Error response from daemon: conflict: unable to delete (injected)");
+                    continue;
+                }
+                if mode == 1 && !p.exists() {
+                    exit = 1;
+                    eprintln!("Error response from daemon: No such image");
+                }
+                let _ = std::fs::remove_file(p);
             }
             if !args.contains(&"--force") {
                 exit = 1;
